@@ -3,7 +3,7 @@
 -/
 import Hv.Storage.Disk
 
-namespace Hv.Storage
+namespace Hv.BlockStore
 
 /-! ### Index -/
 namespace Index
@@ -213,9 +213,9 @@ theorem loadFile_clean (c : RCfg) (nl : Nat) (bs : List Block) (hw : ∀ b ∈ b
   rw [this]
   simp [stopOk]
 
-end Hv.Storage
+end Hv.BlockStore
 
-namespace Hv.Storage
+namespace Hv.BlockStore
 
 /-! ### Crash images from a checkpoint (what the driver computes) -/
 
@@ -256,4 +256,4 @@ theorem lossyImageAt_checkpoint (d0 : Disk) (ops : List FsOp) (b i j k : Nat) (h
     rw [e1, List.drop_drop]
     congr 1; omega
 
-end Hv.Storage
+end Hv.BlockStore
